@@ -47,8 +47,10 @@ class CopyPropagate:
                 # require that `y` is never redefined
                 if len(def_use.name_to_defs[d.site.expr.name]) != 1:
                     continue
-                if len(def_use.uses[d]) > 0:
-                    # optimization: only propagate if there is at least one use
+                if any(isinstance(u, Var) for u in def_use.uses[d]):
+                    # only propagate if there is at least one use that can
+                    # be rewritten (an indexed assignment `x[i] = e` uses `x`
+                    # but is not a substitutable expression)
                     prop[d] = d.site.expr
 
         if not prop:
